@@ -175,8 +175,9 @@ class Inliner(object):
         self._sites = {}
         self._vec = {}
         self.taken = set()
+        self.fn_stored = set()
 
-    def inlinable(self, caller, call, stack):
+    def inlinable(self, caller, call, stack, generator=False):
         callee = self.resolve(caller, call)
         if callee is None:
             return None
@@ -202,10 +203,15 @@ class Inliner(object):
             return None
         if _count_stmts(raw.body) > MAX_STMTS:
             return None
+        yields = 0
         for sub in ast.walk(raw):
-            if isinstance(sub, (ast.Yield, ast.YieldFrom, ast.Await,
+            if isinstance(sub, (ast.YieldFrom, ast.Await,
                                 ast.Global, ast.Nonlocal)):
                 return None
+            if isinstance(sub, ast.Yield):
+                yields += 1
+        if bool(yields) != generator:
+            return None
         for deco in raw.decorator_list:
             name = ast.unparse(deco)
             if name not in ('staticmethod', 'classmethod'):
@@ -242,11 +248,12 @@ class Inliner(object):
             self._sites[key] = count
         return self._sites[key]
 
-    def expand(self, caller, call, callee, result, stack, cond=False):
+    def expand(self, caller, call, callee, result, stack, cond=False,
+               raw=None):
         """Statements replacing a call to callee (cond: (pre, body) for a
         call in condition position; returns stay ``return`` statements
         marked ``_inline_cond_ret``)."""
-        raw = callee.raw
+        raw = raw or callee.raw
         self.counter += 1
         tag = '%s__%d' % (callee.name.strip('_'), self.counter)
         params = [a.arg for a in raw.args.posonlyargs + raw.args.args]
@@ -373,7 +380,137 @@ class Inliner(object):
         self.counter += 1
         return '_inl_%s_%d' % (name.strip('_'), self.counter)
 
+    def desugar_quantifier(self, stmt):
+        """return all(E for x in IT [if C])  ->
+             for x in IT: if [C and] not E: return False
+             return True          (any: dually)"""
+        call = stmt.value
+        if not (isinstance(call, ast.Call) and
+                isinstance(call.func, ast.Name) and
+                call.func.id in ('all', 'any') and len(call.args) == 1 and
+                not call.keywords and
+                isinstance(call.args[0], (ast.GeneratorExp, ast.ListComp))
+                and len(call.args[0].generators) == 1):
+            return None
+        comp = call.args[0]
+        gen = comp.generators[0]
+        if gen.is_async:
+            return None
+        names = set(n.id for n in ast.walk(gen.target)
+                    if isinstance(n, ast.Name))
+        if names & self.fn_stored:
+            return None
+        is_all = call.func.id == 'all'
+        test = comp.elt
+        if is_all:
+            test = ast.UnaryOp(op=ast.Not(), operand=test)
+        if gen.ifs:
+            test = ast.BoolOp(op=ast.And(), values=list(gen.ifs) + [test])
+        inner = ast.If(test=test, body=[ast.Return(
+            value=ast.Constant(value=not is_all))], orelse=[])
+        loop = ast.For(target=gen.target, iter=gen.iter, body=[inner],
+                       orelse=[])
+        for node in ast.walk(gen.target):
+            if isinstance(node, ast.Name):
+                node.ctx = ast.Store()
+        tail = ast.Return(value=ast.Constant(value=is_all))
+        for new in (loop, tail):
+            for node in ast.walk(new):
+                if not hasattr(node, 'lineno'):
+                    ast.copy_location(node, stmt)
+        loop._desugared = call.func.id
+        return [loop, tail]
+
+    def generator_loop(self, caller, stmt, stack):
+        """for T in helper(...): BODY, helper a private generator  ->
+        the helper's body with every `yield E` replaced by T = E; BODY."""
+        if stmt.orelse or not isinstance(stmt.iter, ast.Call):
+            return None
+
+        def own_jumps(body):
+            for sub in body:
+                if isinstance(sub, (ast.Break, ast.Continue)):
+                    return True
+                if isinstance(sub, (ast.For, ast.While, ast.FunctionDef,
+                                    ast.AsyncFunctionDef, ast.ClassDef)):
+                    if isinstance(sub, (ast.For, ast.While)) and \
+                            own_jumps(sub.orelse):
+                        return True
+                    continue
+                for field in ('body', 'orelse', 'finalbody'):
+                    if own_jumps(getattr(sub, field, []) or []):
+                        return True
+                for hdl in getattr(sub, 'handlers', []) or []:
+                    if own_jumps(hdl.body):
+                        return True
+            return False
+        if own_jumps(stmt.body):
+            return None
+        callee = self.inlinable(caller, stmt.iter, stack, generator=True)
+        if callee is None:
+            return None
+        raw = copy.deepcopy(callee.raw)
+        ok = [True]
+
+        class Yields(ast.NodeTransformer):
+            def visit_Expr(self, node):
+                if isinstance(node.value, ast.Yield):
+                    val = node.value.value or ast.Constant(value=None)
+                    if any(isinstance(s, ast.Yield) for s in ast.walk(val)):
+                        ok[0] = False
+                    assign = ast.copy_location(ast.Assign(
+                        targets=[ast.Name(id='__yield_target__',
+                                          ctx=ast.Store())],
+                        value=val, lineno=node.lineno), node)
+                    hole = ast.copy_location(ast.Expr(value=ast.Name(
+                        id='__yield_body__', ctx=ast.Load())), node)
+                    return [assign, hole]
+                return node
+
+            def visit_Return(self, node):
+                ok[0] = False
+                return node
+
+            def visit_FunctionDef(self, node):
+                if node is raw:
+                    self.generic_visit(node)
+                return node
+        Yields().visit(raw)
+        if not ok[0] or any(isinstance(s, ast.Yield) for s in ast.walk(raw)):
+            return None
+        expanded = self.expand(caller, stmt.iter, callee, None, stack,
+                               raw=raw)
+        if expanded is None:
+            return None
+        target, body = stmt.target, stmt.body
+
+        class Fill(ast.NodeTransformer):
+            def visit_Assign(self, node):
+                if len(node.targets) == 1 and isinstance(
+                        node.targets[0], ast.Name) and \
+                        node.targets[0].id == '__yield_target__':
+                    node.targets = [copy.deepcopy(target)]
+                return node
+
+            def visit_Expr(self, node):
+                if isinstance(node.value, ast.Name) and \
+                        node.value.id == '__yield_body__':
+                    block = ast.copy_location(ast.If(
+                        test=ast.Constant(value=True),
+                        body=copy.deepcopy(body), orelse=[]), node)
+                    block._inline = 'loop body'
+                    return block
+                return node
+        return [Fill().visit(node) for node in expanded]
+
     def stmt(self, caller, stmt, stack):
+        if isinstance(stmt, ast.Return) and stmt.value is not None:
+            parts = self.desugar_quantifier(stmt)
+            if parts is not None:
+                out = []
+                for part in parts:
+                    out.extend(self.stmt(caller, part, stack))
+                return out
         # recurse into compound statements first
         for field in ('body', 'orelse', 'finalbody'):
             sub = getattr(stmt, field, None)
@@ -385,6 +522,9 @@ class Inliner(object):
         if isinstance(stmt, ast.Try):
             for hdl in stmt.handlers:
                 hdl.body = self.process(caller, hdl.body, stack)
+        if isinstance(stmt, ast.For):
+            unrolled = self.generator_loop(caller, stmt, stack)
+            return unrolled if unrolled is not None else [stmt]
         call = None
         result = None
         tail = []
@@ -439,6 +579,9 @@ def inline_function(index, func, resolver):
     (new FunctionDef, [inlined callee names])."""
     inl = Inliner(index, resolver)
     node = copy.deepcopy(func.raw)
+    inl.fn_stored = (_stored_names(func.raw.body) -
+                     _comprehension_vars(func.raw.body)) | set(
+                         a.arg for a in func.raw.args.args)
     inl.taken = set(n.id for n in ast.walk(func.raw)
                     if isinstance(n, ast.Name)) | set(
                         a.arg for a in func.raw.args.args)
